@@ -911,6 +911,9 @@ def call_builtin_class(I, st, c, args, kwargs):
             yield st, str(v)
         elif isinstance(v, Fraction):
             yield st, repr(float(v))
+        elif isinstance(v, Ref) and st.get(v).kind == "obj" and I.class_lookup(st.get(v).cls, "__str__")[0] is not None:
+            # str(obj) is type(obj).__str__(obj)
+            yield from I.call(BoundMethod(I.class_lookup(st.get(v).cls, "__str__")[0], v), [], {}, st)
         else:
             yield st, Opaque("str()")
     elif n == "tuple":
@@ -1714,40 +1717,75 @@ def make_ext_modules(I):
             if e.kind != "obj":
                 yield st, st.alloc(e.copy())
                 return
+            m, _ = I.class_lookup(e.cls, "__copy__")
+            if m is not None:
+                yield from I.call(BoundMethod(m, v), [], {}, st)  # the class's own shallow-copy hook
+                return
+            for hook in ("__reduce_ex__", "__reduce__", "__getstate__", "__setstate__"):
+                if I.class_lookup(e.cls, hook)[0] is not None:
+                    raise Unsupported("copy.copy of an object with %s" % hook)
             yield st, st.alloc(ObjE(e.cls, dict(e.attrs)))
             return
         yield st, v
 
     def cp_deepcopy(I, st, a, k):
-        I.trust("deepcopy", "A6: copy.deepcopy yields a structurally equal, disjoint copy (containers and plain objects)")
+        I.trust("deepcopy", "A6: copy.deepcopy yields a structurally equal, disjoint copy (containers and plain objects; "
+                            "__getstate__/__setstate__ honoured as by copyreg: new object, state deep-copied, then set)")
         memo = {}
+        S = [st]
+
+        def call1(fn, args):
+            outs = list(I.call(fn, args, {}, S[0]))
+            if len(outs) != 1 or isinstance(outs[0][1], Exc):
+                raise Unsupported("copy protocol method forks or raises")
+            S[0] = outs[0][0]
+            return outs[0][1]
 
         def dc(v):
             if isinstance(v, Ref):
                 if v.id in memo:
                     return memo[v.id]
-                e = st.get(v)
+                e = S[0].get(v)
                 if e.kind == "obj":
-                    m, _ = I.class_lookup(e.cls, "__deepcopy__")
-                    if m is not None:
-                        raise Unsupported("deepcopy of object with __deepcopy__")
-                    new = st.alloc(ObjE(e.cls, {}))
+                    for hook in ("__deepcopy__", "__reduce_ex__", "__reduce__"):
+                        if I.class_lookup(e.cls, hook)[0] is not None:
+                            raise Unsupported("deepcopy of object with %s" % hook)
+                    gs, _ = I.class_lookup(e.cls, "__getstate__")
+                    ss, _ = I.class_lookup(e.cls, "__setstate__")
+                    new = S[0].alloc(ObjE(e.cls, {}))
                     memo[v.id] = new
-                    st.get(new).attrs = {kk: dc(x) for kk, x in e.attrs.items()}
+                    if gs is None:
+                        attrs = {kk: dc(x) for kk, x in S[0].get(v).attrs.items()}
+                        if ss is None:
+                            S[0].get(new).attrs = attrs
+                        else:
+                            call1(BoundMethod(ss, new), [S[0].alloc(DictE(attrs))])
+                        return new
+                    state = dc(call1(BoundMethod(gs, v), []))
+                    if ss is not None:
+                        call1(BoundMethod(ss, new), [state])
+                    elif state is None:
+                        pass
+                    elif isinstance(state, Ref) and S[0].get(state).kind == "dict" and all(isinstance(kk, str) for kk in S[0].get(state).items):
+                        S[0].get(new).attrs.update(S[0].get(state).items)
+                    else:
+                        raise Unsupported("deepcopy: __getstate__ result is not a dict")
                     return new
-                new = st.alloc(e.copy())
+                new = S[0].alloc(e.copy())
                 memo[v.id] = new
-                ne = st.get(new)
                 if e.kind in ("list", "deque"):
-                    ne.items = [dc(x) for x in e.items]
+                    items = [dc(x) for x in e.items]
+                    S[0].get(new).items = items
                 elif e.kind == "dict":
-                    ne.items = {kk: dc(x) for kk, x in e.items.items()}
+                    items = {kk: dc(x) for kk, x in e.items.items()}
+                    S[0].get(new).items = items
                 return new
             if isinstance(v, tuple):
                 return tuple(dc(x) for x in v)
             return v
 
-        yield st, dc(a[0])
+        r = dc(a[0])
+        yield S[0], r
 
     E["copy"] = {"copy": bi("copy.copy", cp_copy), "deepcopy": bi("copy.deepcopy", cp_deepcopy)}
     from .values import Partial
